@@ -286,8 +286,14 @@ func TestC20_CLI(t *testing.T) {
 		}
 		h1, _ := proc.NewHome(dir)
 		h2, _ := proc.NewHome(dir)
-		r1 := runWtf(h1, dir, append(append([]string{}, common...), q1))
-		r2 := runWtf(h2, dir, append(append([]string{}, common...), args2...))
+		// both spellings run in the same - often odd - environment: a Turkish or C locale, another terminal,
+		// a WSL session's variables; letter case is folded the same way whatever the locale says
+		var lenv []string
+		if rapid.Bool().Draw(t, "odd-environment") {
+			lenv = append(gen.HostileEnv(t, "c20"), rapid.SampledFrom([]string{"LANG=tr_TR.UTF-8", "LC_ALL=tr_TR.UTF-8", "LANG=az_AZ.UTF-8", "LC_CTYPE=C", "LANG=lt_LT.UTF-8", "LC_ALL=POSIX"}).Draw(t, "locale"))
+		}
+		r1 := runWtf(h1, dir, append(append([]string{}, common...), q1), lenv...)
+		r2 := runWtf(h2, dir, append(append([]string{}, common...), args2...), lenv...)
 		if r1.Panicked() || r2.Panicked() || r1.TimedOut || r2.TimedOut {
 			t.Fatalf("wtf crashed: %+v %+v", r1, r2)
 		}
